@@ -258,6 +258,8 @@ _SAN = dict(always_sanitize=True)
 _MEMKINDS = ['stl-assert', 'asan', 'signal', 'divzero', 'memory', 'spec']
 PROPS['C09'] = dict(
     engine='A+B', irsym=[dict(module='c13', checks=[0, 1, 4, 6], params=dict(quick=dict(nmax_data=3), thorough=dict(nmax_data=4))),
+                        dict(module='c18', tiers=['quick'], params=dict(quick=dict(nmax=3, gen_sizes=[2])),
+                             select=dict(quick=['chk_eval1', 'chk_eval', 'chk_iszero', 'chk_scopy', 'chk_applyX1', 'chk_applyX3', 'chk_applyDx1', 'chk_mul', 'chk_splop', 'chk_bilin', 'chk_scalarprod', 'chk_linform', 'chk_scale', 'chk_generate1'])),
                         dict(module='c18', tiers=['thorough'], params=dict(thorough=dict(nmax=3)), select=dict(thorough=['chk_eval', 'chk_eval1', 'chk_add_shared', 'chk_add_distinct', 'chk_mul', 'chk_splop', 'chk_bilin', 'chk_linform', 'chk_applyX1', 'chk_scopy']))],
     b_timeout_s=dict(quick=900, thorough=3000),
     technique='(A) symbolic-scalar execution of the real templates under checked STL + AddressSanitizer + UBSan on every solver-enumerated path; reachability of a zero divisor decided by the solver at every scalar division; (B) symbolic execution of the compiled IR with 64-bit symbolic indices/windows where every load/store is resolved by the solver against the live objects',
@@ -277,7 +279,7 @@ PROPS['C09'] = dict(
     generated=[dict(mode='c05', ntu=16, env=dict(quick={'C05_L2_QUICK': '48'}), template=dict(_SAN, defs=dict(quick=['-DMAXN=3', '-DMAXO=2', '-DFO=1'], thorough=['-DMAXN=4', '-DMAXO=2', '-DFO=1']), functions=['every operator transform incl. SplineOperator with every factor placement'])),
                dict(mode='c06', ntu=8, template=dict(_SAN, defs=dict(quick=['-DMAXN=3', '-DMAXO=2', '-DFO=1'], thorough=['-DMAXN=4', '-DMAXO=3', '-DFO=1']), functions=['BilinearForm::evaluate/evaluateInterval'])),
                dict(mode='c07', ntu=8, template=dict(_SAN, defs=dict(quick=['-DMAXN=3', '-DMAXO=2', '-DFO=1'], thorough=['-DMAXN=4', '-DMAXO=3', '-DFO=1']), functions=['LinearForm::evaluate/evaluateInterval']))],
-    bounds=dict(quick='layer 2+3: the harnesses of C01-C08, C10, C12, C14, C15, C17 at reduced bounds (grids <=3-4 points, orders <=2-3, every window placement, every solver-feasible value-dependent path) built with -D_GLIBCXX_ASSERTIONS -D_GLIBCXX_DEBUG -fsanitize=undefined (quick) plus -fsanitize=address (thorough); every scalar division checked for a reachable zero divisor. Layer 1 (all 2^64 index values of the checked accessors, byte-level bounds of the compiled code) is served by Engine B - see C13 evidence and the engine_b section here',
+    bounds=dict(quick='layer 2+3: the harnesses of C01-C08, C10, C12, C14, C15, C17 at reduced bounds (grids <=3-4 points, orders <=2-3, every window placement, every solver-feasible value-dependent path) built with -D_GLIBCXX_ASSERTIONS -D_GLIBCXX_DEBUG -fsanitize=undefined (quick) plus -fsanitize=address (thorough); every scalar division checked for a reachable zero divisor. Layer 1 (Engine B): all 2^64 index values of the checked accessors and of the Support life-cycle, and byte-level bounds of every load/store of 14 Spline-level operations (evaluation, copy, operator application incl. SplineOperator, product, forms, generator) with symbolic windows on grids of 2..3 points',
                 thorough='the same harnesses one size larger'),
     outside='allocation failure, stack exhaustion, call sequences that violate documented preconditions (unchecked operator[] with out-of-range index), orders/grids above the bounds; uninitialised reads are only caught where they change a checked result (see C19 for default-constructed scalars)',
     assumptions=['grid points strictly increasing reals', 'exact real arithmetic for values (indices, sizes, iterator arithmetic are the real machine integers of the compiled code)'],
